@@ -69,9 +69,100 @@ def budget(tier):
     return 70 if tier == "quick" else 400
 
 
+SELF_COMPL_OV = ["*", "*", "4M", "2M", "1M", "3=", "1M2X1M"]
+OTHER_OV = ["1M1D1M", "2M1I1M", "1M1I2M", "2M1D", "1I3M"]
+
+
+def gen_path_doc(rng, max_lines):
+    """A valid GFA1 document built around one path (sometimes two): 1-2 segments, a walk of 1-3 steps in which
+    hairpin steps (x+ -> x-), self loops (x+ -> x+) and steps between different segments are all frequent, and
+    for every step exactly one link, spelled in the direction of the step or as its complement, whose overlap
+    is `*`, a CIGAR equal to its own complement or an asymmetric CIGAR.  The path gives the overlaps (read in
+    the direction of the step; for a `*` link sometimes an overlap of its own) or a single `*`.  The class
+    covered: every way a path step can match its link - directly, as the complement, or both ways at once
+    (hairpin link with a self-complementary overlap, or any hairpin link when the step does not state the
+    overlap).  Segments have 8 bases so that every overlap fits."""
+    feats = ["path-doc"]
+    names = list(D.SEG1)
+    rng.shuffle(names)
+    names = names[:rng.choice([1, 1, 2])]
+    segl = ["S\t%s\t%s" % (n, rng.choice(["*", "ACGTACGT", "*\tLN:i:8"])) for n in names]
+    links = []
+    ids = list(D.LINKIDS)
+
+    def walk(nsteps, room):
+        cur = (rng.choice(names), rng.choice("+-"))
+        w, ovs = [cur], []
+        for _ in range(nsteps):
+            r = rng.random()
+            if r < 0.45:
+                nxt = (cur[0], D.inv(cur[1]))
+            elif r < 0.6 or len(names) == 1:
+                nxt = (cur[0], cur[1]) if r < 0.6 else (cur[0], rng.choice("+-"))
+            else:
+                nxt = (rng.choice([n for n in names if n != cur[0]]), rng.choice("+-"))
+            found = D._find_links(links, cur[0], cur[1], nxt[0], nxt[1])
+            if not found:
+                if len(links) >= room:
+                    break
+                ov = rng.choice(SELF_COMPL_OV) if rng.random() < 0.7 else rng.choice(OTHER_OV)
+                if rng.random() < 0.5:
+                    l = {"f": cur[0], "fo": cur[1], "t": nxt[0], "to": nxt[1], "c": ov, "tags": []}
+                else:
+                    l = {"f": nxt[0], "fo": D.inv(nxt[1]), "t": cur[0], "to": D.inv(cur[1]), "c": D.cig_compl(ov),
+                         "tags": []}
+                    feats.append("path-over-complement")
+                if rng.random() < 0.3 and ids:
+                    l["tags"].append("ID:Z:" + ids.pop(0))
+                if rng.random() < 0.2:
+                    l["tags"] += D.gen_custom_tags(rng, 1, odd=0.1, types="iZA")
+                links.append(l)
+                if cur[0] == nxt[0]:
+                    feats.append("self-link" if cur[1] == nxt[1] else "hairpin")
+                found = D._find_links(links, cur[0], cur[1], nxt[0], nxt[1])
+            else:
+                feats.append("link-used-by-two-steps")
+            fl, ov = found[0]
+            if ov == "*" and (fl.get("stated") or rng.random() < 0.3):
+                if not fl.get("stated"):
+                    fl["stated"] = rng.choice(["3M", "2M1D", "4=", "1M1I1M"])
+                    feats.append("path-specifies-star-link")
+                direct = (fl["f"], fl["fo"], fl["t"], fl["to"]) == (cur[0], cur[1], nxt[0], nxt[1])
+                ov = fl["stated"] if direct else D.cig_compl(fl["stated"])
+            if cur[0] == nxt[0] and cur[1] != nxt[1] and (ov == "*" or D.cig_compl(ov) == ov):
+                feats.append("step-matches-link-both-ways")
+            ovs.append(ov)
+            w.append(nxt)
+            cur = nxt
+        return w, ovs
+
+    paths = []
+    pnames = [x for x in D.PATHS if x not in names]
+    for k in range(2 if rng.random() < 0.25 else 1):
+        if k and len(segl) + len(links) + len(paths) >= max_lines:
+            break
+        w, ovs = walk(rng.choice([1, 2, 2, 3, 3]), max_lines - len(segl) - len(paths) - 1)
+        if len(w) == 1 or rng.random() < 0.4:
+            ovtxt = "*"
+            if len(w) > 1 and any(a[0] == b[0] and a[1] != b[1] for a, b in zip(w, w[1:])):
+                feats.append("step-matches-link-both-ways")
+        else:
+            ovtxt = ",".join(ovs)
+        paths.append("\t".join(["P", pnames[k], ",".join(a + b for a, b in w), ovtxt]))
+    body = segl + [D.link_text(l) for l in links] + paths
+    extra = ["H\tVN:Z:1.0", "# c", "H\txx:i:1", "C\t%s\t+\t%s\t-\t0\t*" % (names[0], names[-1])]
+    while len(body) < max_lines and rng.random() < 0.4:
+        body.append(extra.pop(rng.randrange(len(extra))))
+    rng.shuffle(body)
+    return {"version": "gfa1", "lines": body, "features": sorted(set(feats))}
+
+
 def gen_case(rng, tier, i):
     ml = rng.choice([3, 4, 5, 5, 6, 6]) if tier == "quick" else rng.choice([4, 5, 6, 6, 7, 8, 10, 16])
-    d = D.gen_doc(rng, max_lines=ml, same_id_groups=True, odd=0.2)
+    if i % 3 == 2:
+        d = gen_path_doc(rng, min(max(ml, 4), 7))
+    else:
+        d = D.gen_doc(rng, max_lines=ml, same_id_groups=True, odd=0.2)
     return {"version": d["version"], "lines": d["lines"], "features": d["features"],
             "vlevel": rng.choice([1, 1, 1, 0, 2, 3]), "ver_param": rng.choice([None, None, None, d["version"]]),
             "sample": rng.randrange(10 ** 6), "full": 6 if tier == "quick" else 7}
@@ -167,10 +258,10 @@ def norm_obs(o):
     return out
 
 
-def fast_obs(g):
+def fast_obs(g, memo=None):
     """lib.obs with the written form of each line computed once (same content, checked against lib.obs on the
     first order of every case)"""
-    memo = {}
+    memo = {} if memo is None else memo
 
     def w(l):
         k = id(l)
@@ -199,6 +290,77 @@ def fast_obs(g):
     return o
 
 
+REF_FIELDS = {"L": ["from_segment", "to_segment"], "C": ["from_segment", "to_segment"], "P": ["segment_names"],
+              "E": ["sid1", "sid2"], "G": ["sid1", "sid2"], "F": ["sid"], "O": ["items"], "U": ["items"]}
+
+
+def link_flipped(l):
+    """True when the stored link is the complement of the form norm_line prints (a link equal to its own
+    complement is never flipped)"""
+    pos = str(l).split("\t")[1:6]
+    try:
+        alt = [pos[2], D.inv(pos[3]), pos[0], D.inv(pos[1]), D.cig_compl(pos[4])]
+    except Exception:  # noqa
+        return False
+    return min(pos, alt) != pos
+
+
+def ref_obs(gfapy, g, memo):
+    """reference targets of every line: for each reference field (and the resolved links of a path) the written
+    form of the target line(s), with the orientation where the reference is oriented.  A target that is not a
+    line, is a placeholder or is not one of the lines of the Gfa is marked.  Links are described in the direction
+    norm_line prints them: from/to of a link stored in the other direction are swapped and the orientation of
+    such a link in path.links is inverted, so that the description does not depend on which of the two forms of
+    a link the document spells."""
+    lines = g.lines
+    mine = {id(l) for l in lines}
+    nmemo = {}
+
+    def nw(l):
+        k = id(l)
+        if k not in nmemo:
+            nmemo[k] = (l, norm_line(memo[k][1] if k in memo else lib.wl(l)),
+                        l.record_type == "L" and link_flipped(l))
+        return nmemo[k]
+
+    def tgt(x, link_orient=False):
+        orient = ""
+        if isinstance(x, gfapy.OrientedLine):
+            orient, x = x.orient, x.line
+        if not isinstance(x, gfapy.Line):
+            return "UNRESOLVED(%s)%s" % (x, orient)
+        if link_orient and nw(x)[2]:
+            orient = D.inv(orient)
+        flags = ("[placeholder]" if x.virtual else "") + ("" if id(x) in mine and x.gfa is g else "[not-a-line-of-the-gfa]")
+        return nw(x)[1] + " " + orient + flags
+
+    out = {}
+    for l in lines:
+        rt = l.record_type
+        if rt not in REF_FIELDS:
+            continue
+        d = {}
+        for fn in REF_FIELDS[rt]:
+            try:
+                v = l.get(fn)
+                d[fn] = [tgt(x) for x in v] if isinstance(v, list) else tgt(v)
+            except Exception as e:  # noqa
+                d[fn] = "EXC:" + e.__class__.__name__
+        if rt == "U" and isinstance(d.get("items"), list):
+            d["items"] = sorted(d["items"])
+        if rt == "L" and nw(l)[2]:
+            d["from_segment"], d["to_segment"] = d["to_segment"], d["from_segment"]
+        if rt == "P":
+            try:
+                d["links"] = [tgt(x, True) for x in l.links]
+            except Exception as e:  # noqa
+                d["links"] = "EXC:" + e.__class__.__name__
+        out.setdefault(nw(l)[1], []).append(d)
+    for k in out:
+        out[k].sort(key=repr)
+    return out
+
+
 def observe(gfapy, lines, vlevel, ver, check=False):
     try:
         g = gfapy.Gfa(list(lines), vlevel=vlevel, version=ver)
@@ -207,16 +369,52 @@ def observe(gfapy, lines, vlevel, ver, check=False):
     except Exception as e:  # noqa
         return ("foreign", e.__class__.__name__, str(e).split("\n")[0][:100])
     try:
-        o = fast_obs(g)
+        memo = {}
+        o = fast_obs(g, memo)
         if check and o != lib.obs(g):
             return ("obs-raises", "HARNESS", "fast_obs differs from lib.obs")
-        return ("ok", norm_obs(o))
+        o = norm_obs(o)
+        o["refs"] = ref_obs(gfapy, g, memo)
+        return ("ok", o)
     except Exception as e:  # noqa
         return ("obs-raises", e.__class__.__name__, str(e).split("\n")[0][:100])
 
 
 def diff_keys(a, b):
-    return [k for k in ("version", "text", "names", "virtual", "back", "owner_ok") if a.get(k) != b.get(k)]
+    return [k for k in ("version", "text", "names", "virtual", "back", "owner_ok", "refs") if a.get(k) != b.get(k)]
+
+
+SHARED = "[orientation-of-a-link-used-by-two-path-steps]"
+
+
+def only_shared_link_orientation(x, y):
+    """True when two reference observations differ only in the orientation, in path.links, of links that are
+    the link of two or more path steps of the document (the finding `SHARED` of the docstring)"""
+    uses = {}
+    for k, ds in x.items():
+        for d in ds:
+            if isinstance(d.get("links"), list):
+                for t in d["links"]:
+                    uses[t.rsplit(" ", 1)[0]] = uses.get(t.rsplit(" ", 1)[0], 0) + 1
+    for k in set(x) | set(y):
+        a, b = x.get(k), y.get(k)
+        if a == b:
+            continue
+        if a is None or b is None or len(a) != len(b):
+            return False
+        for da, db in zip(a, b):
+            if da == db:
+                continue
+            if set(da) != set(db) or any(da[f] != db[f] for f in da if f != "links"):
+                return False
+            la, lb = da["links"], db["links"]
+            if not (isinstance(la, list) and isinstance(lb, list) and len(la) == len(lb)):
+                return False
+            for ta, tb in zip(la, lb):
+                if ta != tb and (ta.rsplit(" ", 1)[0] != tb.rsplit(" ", 1)[0] or uses.get(ta.rsplit(" ", 1)[0], 0) < 2
+                                 or {ta.rsplit(" ", 1)[1], tb.rsplit(" ", 1)[1]} != {"+", "-"}):
+                    return False
+    return True
 
 
 def oracle(case, full_upto=None):
@@ -254,6 +452,8 @@ def oracle(case, full_upto=None):
             F.setdefault("placeholder-left", "placeholder-left: %r remain after loading %r" % (r[1]["virtual"], perm))
         for k in diff_keys(r0[1], r[1]):
             sig = "order-dependent-" + k
+            if k == "refs" and only_shared_link_orientation(r0[1][k], r[1][k]):
+                sig += SHARED
             if sig not in F:
                 x, y = r0[1][k], r[1][k]
                 if isinstance(x, list):
